@@ -17,9 +17,10 @@
 (*              (cli.py refresh_impl) uses to skip a candidate as already done.*)
 (*                                                                             *)
 (* The operating system chooses the order of both directory listings anew in   *)
-(* every run.  Crash (the process dies) and Fail (put_item raises) can happen  *)
-(* before, during and after every single transfer, MaxFaults times in total;   *)
-(* both end the run (pc = "idle"), after which publish may be run again.       *)
+(* every run.  Crash (the process dies), Fail (put_item raises) and Refuse (the *)
+(* store cannot create the destination file) can happen before, during and     *)
+(* after every single transfer, MaxFaults times in total; each ends the run    *)
+(* (pc = "idle"), after which publish may be run again.                        *)
 EXTENDS Naturals, Sequences, FiniteSets, TLC
 
 CONSTANTS Configs,     \* set of functions: image id |-> set of file names in its approved directory
@@ -121,8 +122,18 @@ Fail == /\ \/ pc = "put" /\ k <= Len(order)
         /\ faults' = faults + 1 /\ pc' = "idle" /\ NoRun
         /\ UNCHANGED <<files, store, loc>>
 
+\* the store refuses to create the destination file (ENOSPC, EDQUOT, EMFILE, EACCES, EROFS, ENAMETOOLONG ...):
+\* the failure arises INSIDE put_item, at BeginPut, before anything is written; the item stays as it was
+\* (absent, or the old copy of an earlier attempt), put_item raises and the run ends.  As a relation on states
+\* this is Fail at the head of a transfer; it is a separate action because it is a separate fault point of the
+\* code (the clean-up path of put_item runs although the destination / temporary file was never created).
+Refuse == /\ pc = "put" /\ k <= Len(order)
+          /\ faults < MaxFaults
+          /\ faults' = faults + 1 /\ pc' = "idle" /\ NoRun
+          /\ UNCHANGED <<files, store, loc>>
+
 Step == Start \/ NextImage \/ BeginPut \/ EndPut \/ Rename \/ Finish
-Next == Step \/ Crash \/ Fail
+Next == Step \/ Crash \/ Fail \/ Refuse
 Spec == Init /\ [][Next]_vars /\ WF_vars(Step)
 
 \* --------------------------------------------------------------------------------------------------
